@@ -4,6 +4,7 @@ import (
 	"errors"
 
 	"github.com/nspcc-dev/neofs-node/pkg/local_object_storage/writecache"
+	"github.com/nspcc-dev/neofs-node/pkg/util/verifhook"
 	apistatus "github.com/nspcc-dev/neofs-sdk-go/client/status"
 	cid "github.com/nspcc-dev/neofs-sdk-go/container/id"
 	oid "github.com/nspcc-dev/neofs-sdk-go/object/id"
@@ -34,6 +35,7 @@ func (s *Shard) deleteObjs(cnr cid.ID, addrs []oid.ID) error {
 	if hasWriteCache {
 		for _, addr := range addrs {
 			err := s.writeCache.Delete(oid.NewAddress(cnr, addr))
+			verifhook.Point("shard.delete.afterCache")
 			if err != nil && !errors.Is(err, apistatus.ErrObjectNotFound) && !errors.Is(err, writecache.ErrReadOnly) {
 				s.log.Warn("can't delete object from write cache", zap.Error(err))
 			}
@@ -44,10 +46,12 @@ func (s *Shard) deleteObjs(cnr cid.ID, addrs []oid.ID) error {
 	if err != nil {
 		return err // stop on metabase error ?
 	}
+	verifhook.Point("shard.delete.afterMeta")
 
 	if hasWriteCache && len(res) > len(addrs) { // res is empty if the metabase does not know the container
 		for _, id := range res[len(addrs):] { // the rest are addrs, removed above
 			err := s.writeCache.Delete(oid.NewAddress(cnr, id))
+			verifhook.Point("shard.delete.afterCache")
 			if err != nil && !errors.Is(err, apistatus.ErrObjectNotFound) && !errors.Is(err, writecache.ErrReadOnly) {
 				s.log.Warn("can't delete object from write cache", zap.Error(err))
 			}
@@ -66,6 +70,7 @@ func (s *Shard) deleteObjs(cnr cid.ID, addrs []oid.ID) error {
 	for _, id := range res {
 		var addr = oid.NewAddress(cnr, id)
 		err = s.blobStor.Delete(addr)
+		verifhook.Point("shard.delete.afterBlob")
 		if err == nil {
 			logOp(s.log, deleteOp, addr)
 		} else {
